@@ -256,9 +256,14 @@ func VerifC10_V1RoundTrip() {
 		vnd.Assert(err == nil, "C10.v1roundtrip.marshal")
 		out := &ExecutionConfig{}
 		vnd.Assert(out.UnmarshalJSON(doc) == nil, "C10.v1roundtrip.unmarshal")
-		vnd.Assert(out.DefaultConfig == in.DefaultConfig && len(out.ProposerConfigs) == len(in.ProposerConfigs), "C10.v1roundtrip.configuration-same-meaning")
+		// (values, not pointers: the real codec builds new objects, the engine's stand-in hands the same ones back)
+		sameEntry := func(a, b *ProposerConfig) bool {
+			return (a == nil) == (b == nil) && (a == nil || (a.FeeRecipient == b.FeeRecipient && a.GasLimit == b.GasLimit && (a.Builder == nil) == (b.Builder == nil)))
+		}
+		vnd.Assert(sameEntry(out.DefaultConfig, in.DefaultConfig) && len(out.ProposerConfigs) == len(in.ProposerConfigs), "C10.v1roundtrip.configuration-same-meaning")
 		if len(in.ProposerConfigs) == 1 {
-			vnd.Assert(out.ProposerConfigs[phase0.BLSPubKey{0xaa, 0xbb}] == in.ProposerConfigs[phase0.BLSPubKey{0xaa, 0xbb}], "C10.v1roundtrip.per-validator-entry-keeps-its-key")
+			got, present := out.ProposerConfigs[phase0.BLSPubKey{0xaa, 0xbb}]
+			vnd.Assert(present && got != nil && sameEntry(got, in.ProposerConfigs[phase0.BLSPubKey{0xaa, 0xbb}]), "C10.v1roundtrip.per-validator-entry-keeps-its-key")
 		}
 	}
 	vnd.Cover("C10.v1roundtrip.checked")
